@@ -1,20 +1,27 @@
 #!/bin/bash
-# Runs every seeded change (/verif/seeded/<name>/patch.diff) against the check of the property
-# it breaks, on a scratch copy of /repo (never /repo itself), and prints caught / MISSED.
-#   scripts/seeded_run.sh [name-glob] [tier]
+# Runs every seeded change (/verif/seeded/<name>/patch.diff) against the check(s) of the
+# property it breaks (meta.json .checks, default [.property]) on a scratch copy of /repo (never
+# /repo itself), and prints caught / MISSED.     scripts/seeded_run.sh [name-glob] [tier]
 glob=${1:-*}; tier=${2:-quick}
 cd /verif || exit 2
 pass=0; miss=0
 for d in seeded/$glob/; do
   [ -f "$d/patch.diff" ] || continue
   name=$(basename "$d")
-  id=$(jq -r .property "$d/meta.json")
-  out=$(scripts/mutant_run.sh "$PWD/$d/patch.diff" "$id" "$tier" 2>&1)
-  if grep -q "^VIOLATION property=$id" <<<"$out"; then
-    sig=$(grep -m1 "violation sig=" <<<"$out" | sed -E 's/.*violation sig=([^ ]+).*/\1/')
-    echo "caught  $name  ($id, $tier)  first signature: $sig"; pass=$((pass+1))
-  else
-    echo "MISSED  $name  ($id, $tier)  $(grep -E "^$id tier=|MUTANT BUILD FAILED|patch does not apply" <<<"$out" | tail -1)"; miss=$((miss+1))
-  fi
+  ids=$(jq -r '(.checks // [.property]) | join(" ")' "$d/meta.json")
+  caught=""
+  for id in $ids; do
+    out=$(scripts/mutant_run.sh "$PWD/$d/patch.diff" "$id" "$tier" 2>&1)
+    if grep -q "^VIOLATION property=$id" <<<"$out"; then
+      sig=$(grep -m1 "violation sig=" <<<"$out" | sed -E 's/.*violation sig=([^ ]+).*/\1/')
+      caught="$caught $id:$sig"
+    else
+      last=$(grep -E "^$id tier=|MUTANT BUILD FAILED|patch does not apply" <<<"$out" | tail -1 | cut -c1-140)
+      missinfo="$missinfo [$id: $last]"
+    fi
+  done
+  if [ -n "$caught" ]; then echo "caught  $name  ($tier) by$caught"; pass=$((pass+1));
+  else echo "MISSED  $name  ($tier)$missinfo"; miss=$((miss+1)); fi
+  missinfo=""
 done
 echo "caught=$pass missed=$miss"
